@@ -439,7 +439,7 @@ class C08(Prop):
             return
         src = g.choice(ts)
         v = g.t[src].val
-        kind = g.choice(["shape", "index", "axis", "setitem_shape", "setitem_index", "setitem_index", "out_shape", "reshape"])
+        kind = g.choice(["shape", "index", "axis", "setitem_shape", "setitem_index", "setitem_index", "out_shape", "reshape", "setshape", "bad_seed"])
         if kind == "shape":
             bad = tuple(list(v.shape) + [v.shape[-1] + 1 if v.ndim else 2]) if v.ndim else (2, 3)
             other = {"n": enc_arr(np.ones((5, 7)))}
@@ -449,6 +449,11 @@ class C08(Prop):
             g.emit({"k": "op", "op": "getitem", "out": g.new_h(), "args": [{"t": src}], "p": {"index": enc_index(ix)}, "spell": "o", "fail": 1})
         elif kind == "axis":
             g.emit({"k": "op", "op": "sum", "out": g.new_h(), "args": [{"t": src}], "p": {"axis": v.ndim + 1}, "spell": g.choice(["f", "m"]), "fail": 1})
+        elif kind == "setshape":
+            g.emit({"k": "setshape", "tgt": src, "shape": [v.size + 1], "fail": 1})
+        elif kind == "bad_seed":
+            if not g.t[src].const and g.tracking:
+                g.emit({"k": "backward", "tgt": src, "seed": rand_seed_ref(g, g.r, v.shape, "bad"), "fail": 1})
         elif kind == "setitem_index":
             # invalid index in an in-place update (IndexError: out of range / too many indices)
             ix = (0,) * (v.ndim + 1) if (g.coin(0.4) or v.ndim == 0) else ((v.shape[0] + 2,) if g.coin(0.5) else (np.array([0, v.shape[0] + 1]),))
